@@ -33,6 +33,7 @@ struct TopoSession : Session {
     std::vector<Edge> es;
     std::vector<topology::Node *> tn;
     std::vector<topology::Edge *> routes;
+    std::vector<topology::Node *> resNodes; std::vector<topology::Edge *> resRoutes;
     std::vector<topology::Node *> *curNodes = nullptr;
     std::vector<topology::Edge *> *curRoutes = nullptr;
     ConstrainedFDLayout *alg = nullptr;
@@ -223,8 +224,12 @@ void TopoSession::run() {
         probe("topology.run");
         {
             HarnessScope hs;
-            topology::ColaTopologyAddon *res = dynamic_cast<topology::ColaTopologyAddon *>(alg->getTopology());
-            if (res) { curNodes = &res->topologyNodes; curRoutes = &res->topologyRoutes; }
+            // getTopology() hands out a clone the caller owns; the node/edge objects themselves stay owned by the layout
+            cola::TopologyAddonInterface *cl = nullptr;
+            { LibScope ls; cl = alg->getTopology(); }
+            topology::ColaTopologyAddon *res = dynamic_cast<topology::ColaTopologyAddon *>(cl);
+            if (res) { resNodes = res->topologyNodes; resRoutes = res->topologyRoutes; curNodes = &resNodes; curRoutes = &resRoutes; }
+            { LibScope ls; delete cl; }
             if (armed("C13")) verify("after");
             std::vector<double> out;
             for (auto r : rs) { out.push_back(r->getCentreX()); out.push_back(r->getCentreY()); }
